@@ -1,0 +1,17 @@
+// Copyright 2026 The Scriggo Authors. All rights reserved.
+// Use of this source code is governed by a BSD-style
+// license that can be found in the LICENSE file.
+
+//go:build verif
+
+package ast
+
+// VerifSetExpandedPrint sets whether the String method of a composite literal
+// prints its elements (as the tests of this package do) or "{...}".
+//
+// It exists only with the "verif" build tag and is used by the verification
+// harness to check that String prints source that parses back to the same
+// tree.
+func VerifSetExpandedPrint(expanded bool) {
+	expandedPrint = expanded
+}
